@@ -61,6 +61,7 @@ func runC18(c *core.Ctx) *core.Outcome {
 	if stack == 2 {
 		prof.StaticSyms = false // static loads are a DbResource feature
 	}
+	prof.LangLikeNames = stack != 2 // a node called like a translation ("nab_nor"): its own translations still have to be found
 	a := app.Generate(t, prof)
 	if err := a.Validate(); err != nil {
 		panic("generator produced ill-formed app: " + err.Error())
